@@ -5,8 +5,12 @@ cd "$(dirname "$0")/.."
 id=$1; tier=${2:-quick}
 if [ -n "$(git -C /repo status --porcelain)" ]; then echo "/repo working tree is not clean"; exit 2; fi
 git -C /repo apply /tmp/seedout/$id/patch.diff || { echo "$id DOES-NOT-APPLY"; exit 2; }
+ID=$(echo $id | tr 'a-z' 'A-Z')
+# the evidence file describes the unchanged tree: it is put back after the run on the changed one
+cp evidence/$ID.json /tmp/evidence_$ID.keep 2>/dev/null
 out=$(bin/vcheck $id $tier 2>&1); rc=$?
 git -C /repo checkout -- . ; git -C /repo clean -fdq
+[ -f /tmp/evidence_$ID.keep ] && mv /tmp/evidence_$ID.keep evidence/$ID.json
 n=$(echo "$out" | grep -c "^VIOLATION")
 echo "== $id rc=$rc violations=$n"
 echo "$out" | grep -E "^(VIOLATION|MACHINERY|NOTE)" | cut -c1-260 | head -${3:-6}
